@@ -35,7 +35,7 @@ COMPONENTS = {
     "real": ["eolib.protocol.protocol_enum_meta.ProtocolEnumMeta", "generated enum modules (real generator run per tree)", "enum.IntEnum of the interpreter"],
     "stub_or_harness": ["construction-history generator", "registry snapshot oracle"],
 }
-PROBES = ["declared", "unknown", "unknown_repeated", "instance_passed_back", "negative", "huge", "none_member",
+PROBES = ["in_flow_read_then_write", "declared", "unknown", "unknown_repeated", "instance_passed_back", "negative", "huge", "none_member",
           "boundary_252_253", "unknown_then_declared_same_class"]
 FAULT_KINDS = ["unknown_ordinal"]
 SHRINK_KEYS = ["ops"]
@@ -51,7 +51,7 @@ SPECIAL = [0, 1, 2, 3, 251, 252, 253, 254, 255, 256, 64007, 64008, 64009, 64010,
 
 def generate(streams, tier):
     rng = streams.get("spec")
-    tree = specgen.gen_tree(rng, "small")
+    tree = add_carriers(specgen.gen_tree(rng, "small"))
     prng = streams.get("plan")
     ops = []
     for _ in range(prng.randrange(1, 201)):
@@ -66,7 +66,29 @@ def generate(streams, tier):
             ops.append([prng.randrange(64), "value", prng.randrange(0, 300)])
         else:
             ops.append([prng.randrange(64), "prev", prng.randrange(64)])
+    # in-flow: integers of a "newer protocol version" read and written back by generated code
+    for _ in range(prng.randrange(0, 12)):
+        ops.insert(prng.randrange(len(ops) + 1),
+                   [prng.randrange(64), "carrier", [prng.choice(["d", "d", "n", "s", "r"]) for _ in range(prng.randrange(1, 8))],
+                    prng.randrange(1 << 30)])
     return {"tree": tree, "ops": ops}
+
+
+def add_carriers(tree):
+    """For every enum of the tree add a struct, next to it, that carries it as a field and as arrays."""
+    import re
+    out = dict(tree)
+    for rel in sorted(tree):
+        names = re.findall(r'<enum name="([A-Za-z0-9]+)"', tree[rel])
+        extra = []
+        for i, name in enumerate(names):
+            if name in ("PacketFamily", "PacketAction") and False:
+                continue
+            extra.append(f'    <struct name="{name}Carrier">\n        <field name="single" type="{name}"/>\n'
+                         f'        <array name="few" type="{name}" length="2"/>\n        <array name="rest" type="{name}"/>\n    </struct>')
+        if extra:
+            out[rel] = tree[rel].replace("</protocol>", "\n".join(extra) + "\n</protocol>")
+    return out
 
 
 def _value_class(n, declared):
@@ -129,6 +151,12 @@ def execute(plan, env):
         cls, declared, shape = classes[ci]
         ords = sorted(declared)
         arg = None
+        if op[1] == "carrier":
+            v = run_carrier(te, cls, declared, op, res, tr, step)
+            if v:
+                fail(v[0], v[1], step)
+                break
+            continue
         if op[1] == "declared":
             n = ords[op[2] % len(ords)]
         elif op[1] == "neighbour":
@@ -217,6 +245,62 @@ def execute(plan, env):
     res.sample = {"enums": [c.__name__ for c, _, _ in classes][:8], "first_ops": [str(o) for o in plan["ops"][:8]],
                   "n_ops": len(plan["ops"])}
     return res
+
+
+def run_carrier(te, cls, declared, op, res, tr, step):
+    """Integers -> wire -> generated deserializer -> enum values -> generated serializer -> wire."""
+    import random as _random
+    ename = cls.__name__
+    if ename not in te.spec.enums or (ename + "Carrier") not in te.spec.classes:
+        return None
+    ed = te.spec.enums[ename]
+    from ..models.codec_model import LIMITS, SIZES
+    lim = LIMITS[ed.underlying]
+    rng = _random.Random(op[3])
+    ords = sorted(o for o in declared if o < lim)
+    values = []
+    for k in op[2]:
+        if k == "d" and ords:
+            values.append(rng.choice(ords))
+        elif k == "n" and ords:
+            values.append(min(lim - 1, max(0, rng.choice(ords) + rng.choice([-1, 1]))))
+        elif k == "s":
+            values.append(rng.choice([v for v in (0, 1, 252, 253, 254, 255, 64008, lim - 1) if v < lim]))
+        else:
+            values.append(rng.randrange(0, min(lim, 400)))
+    while len(values) < 3:
+        values.append(values[-1])
+    w = te.EoWriter()
+    add = getattr(w, "add_" + ed.underlying)
+    for v in values:
+        add(v)
+    data = bytes(w.to_bytearray())
+    carrier = te.bridge.cls(ename + "Carrier")
+    res.evaluations += 1
+    res.count("probe.in_flow_read_then_write")
+    try:
+        obj = carrier.deserialize(te.EoReader(data))
+        got = [obj.single] + list(obj.few) + list(obj.rest)
+    except BaseException as e:  # noqa
+        return ("in-flow-raised", f"{ename}Carrier.deserialize({data.hex()}) raised {type(e).__name__}: {e}")
+    tr.ev(step, "carrier", ename, tuple(values), tuple(int(x) for x in got))
+    if len(got) != len(values):
+        return ("in-flow-value", f"{ename}Carrier read {len(got)} values from {len(values)} written ({values})")
+    for v, x in zip(values, got):
+        if not isinstance(x, cls) or int(x) != v:
+            return ("in-flow-value", f"{ename}Carrier: integer {v} came back as {x!r} (values {values})")
+        if v in declared and x is not getattr(cls, declared[v]):
+            return ("in-flow-value", f"{ename}Carrier: declared ordinal {v} came back as {x!r}, not member {declared[v]}")
+        if v not in declared and x.name != f"Unrecognized({v})":
+            return ("in-flow-value", f"{ename}Carrier: undeclared integer {v} came back named {x.name!r}")
+    w2 = te.EoWriter()
+    try:
+        carrier.serialize(w2, obj)
+    except BaseException as e:  # noqa
+        return ("in-flow-raised", f"{ename}Carrier.serialize raised {type(e).__name__}: {e} for values {values}")
+    if bytes(w2.to_bytearray()) != data:
+        return ("in-flow-rewrite", f"{ename}Carrier: read-then-write changed the bytes {data.hex()} -> {bytes(w2.to_bytearray()).hex()} (values {values})")
+    return None
 
 
 def shrink(plan, still_fails, budget):
